@@ -7,14 +7,14 @@ What is read (comments stripped, the source tokenised: words, string literals, e
 * every item or statement that carries `#[cfg(feature = "rayon")]` or `#[cfg(not(feature = "rayon"))]`, with its
   file, the innermost enclosing `fn` / `struct` / `impl`, its kind (`let`, `use`, `field`, `struct`, `impl`, ...),
   the name it binds or declares, and its token list;
-* neighbouring items of opposite polarity, same scope and same kind are a PAIR (a "site"): the token list of the rayon
+* neighbouring items of opposite polarity in the same scope (and, outside functions, of the same kind) are a PAIR (a "site"): the token list of the rayon
   variant and of the sequential variant are emitted UN-normalised; the normalisation (`par_iter` -> `iter`,
   `into_par_iter` -> `into_iter`, `.par_bridge()` dropped, `let mut` -> `let`, `ParNameList`/`SeqNameList`,
   `RwLock`/`RefCell`, `.read().unwrap()` -> `.borrow()`, `.write().unwrap()` -> `.borrow_mut()`) is a Lean function
   (`ParSource.norm`) and the comparison a theorem, so that what is erased is part of the statement, not of this script;
 * for a pair that binds a name inside a function (`let iter = contents.par_iter()` / `contents.iter()`): the expression
   that is iterated; the SHARED statement that consumes the binding (compiled for both builds); which pieces of shared
-  state that statement mentions (`names`, `path_set`, `self.glyphs`, `&mut`, `Mutex`, `RwLock`, `Atomic*`, `.lock(`,
+  state that statement mentions (a parameter of type `&NameList`, `path_set`, `self.glyphs`, `&mut`, `Mutex`, `RwLock`, `Atomic*`, `.lock(`,
   `static`, `unsafe`); how errors are gathered (`collect::<Result<..>>` = first error in order / some error under
   rayon; `try_for_each`); the collection the results are gathered into (type annotation, turbofish, or the declared
   type of the struct field of that name) and whether the function sorts it afterwards;
@@ -185,7 +185,7 @@ def pair_up(items):
     while i < len(items):
         a = items[i]
         b = items[i + 1] if i + 1 < len(items) else None
-        if b and a["polarity"] != b["polarity"] and a["scope"] == b["scope"] and a["kind"] == b["kind"]:
+        if b and a["polarity"] != b["polarity"] and a["scope"] == b["scope"] and (a["kind"] == b["kind"] or a["scope_kind"] == "fn"):
             par, seq = (a, b) if a["polarity"] == "par" else (b, a)
             pairs.append((par, seq))
             i += 2
@@ -195,7 +195,7 @@ def pair_up(items):
     return pairs, single
 
 
-WATCH = [("names", ["names"]), ("path_set", ["path_set"]), ("self.glyphs", ["self", ".", "glyphs"]),
+WATCH = [("path_set", ["path_set"]), ("self.glyphs", ["self", ".", "glyphs"]),
          ("self.contents", ["self", ".", "contents"]), ("&mut", ["&", "mut"]), ("Mutex", ["Mutex"]),
          ("RwLock", ["RwLock"]), (".lock(", [".", "lock", "("]), ("static", ["static"]), ("unsafe", ["unsafe"])]
 
@@ -233,6 +233,8 @@ def site_details(src, par, seq):
         cut = next((i for i, t in enumerate(rhs) if API_WORDS.match(t) and t != "rayon"), None)
         if cut is not None and cut >= 1 and rhs[cut - 1] == ".":
             d["iterated"] = " ".join(rhs[:cut - 1])
+    if not d["iterated"]:
+        return d        # not an iterator binding: the pair is compared by its two bodies only
     name = par["name"]
     pos, limit = max(par["end"], seq["end"]), par["scope_ext"][1] - 1
     consumer, cname, cend = None, "", pos
@@ -241,7 +243,7 @@ def site_details(src, par, seq):
         if e <= s:
             break
         t = toks(src[s:e])
-        if name in t and not CFG.match(src, s):
+        if name in t:       # (a consumer that is itself under a cfg attribute keeps the attribute's tokens)
             consumer, cname, cend = t, (item_name("let", t) if k == "let" else ""), e
             break
         pos = e
@@ -249,6 +251,12 @@ def site_details(src, par, seq):
         raise NotFound("statement that consumes `%s` in fn %s" % (name, par["scope"]))
     d["consumer"] = consumer
     d["touches"] = touches(consumer)
+    # the shared name table is recognised by TYPE: a parameter `x: &NameList` of the enclosing function
+    head = src[:par["scope_ext"][0]]
+    head = head[head.rfind("fn " + par["scope"]):] if ("fn " + par["scope"]) in head else ""
+    for m in re.finditer(r"(\w+)\s*:\s*&\s*(?:'\w+\s+)?(?:mut\s+)?NameList\b", head):
+        if m.group(1) in consumer:
+            d["touches"] = sorted(set(d["touches"] + ["NameList"]))
     if "try_for_each" in consumer:
         d["errorForm"], d["gathered"] = "try_for_each", "none"
     elif "for_each" in consumer:
